@@ -860,7 +860,14 @@ func (c *Checked) checkProvenance(i int, op Op, res *OpResult, evs []Event) {
 				case last.Ctor != nil:
 					av := m.newAvail()
 					if av.ctorAvail(last.Ctor) == yes {
-						c.viol(i, "zero-for-available-optional", fmt.Sprintf("%s: zero value although f%d provides it and is available", who, last.Ctor.Fn), "C04", "C01")
+						props := []string{"C04", "C01"}
+						if last.Ctor.Home != cons.Scope || last.Ctor.Origin != last.Ctor.Home {
+							// the constructor is reached across scopes (from a
+							// descendant, or exported): it is not "usable from"
+							// where the rule of C08 says it is
+							props = append(props, "C08")
+						}
+						c.viol(i, "zero-for-available-optional", fmt.Sprintf("%s: zero value although f%d provides it and is available", who, last.Ctor.Fn), props...)
 					} else {
 						c.probe("optional_over_gap")
 					}
